@@ -607,8 +607,8 @@ func ReportFuzz(t *testing.T, subName string, c any, err error) {
 // choices (rapid.MakeFuzz), so coverage feedback from the library steers the same generators and the same oracles
 // that the rapid runs use; `which` selects the sub-check. A failing case is saved in the replayable form of its
 // sub-check (so `vcheck --replay` runs it through the plain oracle, without rapid and without the fuzzer).
-// Inputs that are too short for the generator are skipped by rapid ("overrun"); the seed corpus therefore holds
-// long pseudo-random strings (a fixed function of the index, no clock, no RNG of our own).
+// The input is repeated up to 128 KiB before rapid reads it (fuzzTile), so short inputs are evaluated too; the seed
+// corpus holds three short pseudo-random strings per sub-check (a fixed function of the index, no clock, no RNG of our own).
 func FuzzGen(f *testing.F, skip ...string) {
 	var list []*sub
 next:
@@ -627,17 +627,38 @@ next:
 		f.Skip("no generated sub-check")
 	}
 	for i := range list {
-		for j, n := range []int{256, 4096, 32768} {
+		for j, n := range []int{64, 512, 4096} {
 			f.Add(byte(i), fuzzSeedBytes(uint64(i)*8+uint64(j), n))
 		}
 	}
 	f.Fuzz(func(t *testing.T, which byte, data []byte) {
+		if len(data) == 0 {
+			t.Skip()
+		}
 		s := list[int(which)%len(list)]
 		mu.Lock()
 		cur = "fuzzgen:" + s.name
 		mu.Unlock()
-		rapid.MakeFuzz(s.fuzz)(t, data)
+		rapid.MakeFuzz(s.fuzz)(t, fuzzTile(data))
 	})
+}
+
+// fuzzTile repeats the fuzzer's octets up to fuzzTileLen: rapid gives up on a case ("overrun") when the generator asks
+// for more choices than the input holds, so a short input would never be evaluated and a long one would be mutated
+// mostly behind the part the generator reads. With the tiling every input is long enough for the generators, the
+// corpus stays small, and every octet the fuzzer mutates is one the generator reads (round 9: without it 4 % of the
+// executions of the C02 package were evaluated cases).
+const fuzzTileLen = 1 << 17
+
+func fuzzTile(data []byte) []byte {
+	if len(data) >= fuzzTileLen {
+		return data
+	}
+	out := make([]byte, fuzzTileLen)
+	for n := 0; n < len(out); {
+		n += copy(out[n:], data)
+	}
+	return out
 }
 
 // fuzzSeedBytes is a fixed pseudo-random string (splitmix64 of the index).
